@@ -20,7 +20,7 @@ func (i *interpreter) bigFmt(t *sym.Term) interface{} {
 	if t.IsConst() {
 		return t.Val
 	}
-	return fmtStr(symMarker + t.String() + symMarkerEnd)
+	return fmtStr(i.x.decMarker(t))
 }
 
 func bigPtr(v value) *value {
@@ -140,10 +140,7 @@ func init() {
 				return "<nil>"
 			}
 			t := bigGet(args[0])
-			if t.IsConst() {
-				return t.Val.String()
-			}
-			return symMarker + t.String() + symMarkerEnd
+			return fr.i.x.decMarker(t)
 		},
 		"(*math/big.Int).Text": func(fr *frame, args []value) value {
 			p := args[0].(*value)
@@ -154,11 +151,18 @@ func init() {
 			if t.IsConst() {
 				return t.Val.Text(int(asInt64(args[1])))
 			}
+			if asInt64(args[1]) == 10 {
+				return fr.i.x.decMarker(t)
+			}
 			return symMarker + t.String() + symMarkerEnd
 		},
 		"(*math/big.Int).SetString": func(fr *frame, args []value) value {
 			s := args[1].(string)
 			if hasSymMarker(s) {
+				base := asInt64(args[2])
+				if t, ok := fr.i.x.parseDec(s); ok && (base == 10 || base == 0) {
+					return tuple{bigSet(args[0], t), true}
+				}
 				panic(abortPath{"big.Int.SetString of a symbolic string"})
 			}
 			v, ok := new(big.Int).SetString(s, int(asInt64(args[2])))
